@@ -288,6 +288,20 @@ theorem client_auth (C : Crypto) (L : Loc) (f : Bytes) (ops : List Op)
   obtain ⟨hdig, hpk⟩ := hcl.certs _ hcert
   exact ⟨leaf, sr, body, pk, sr', ems, tr, k, tr', vdata, hcert, hdig, hpk, hske, hsig, hdec, hkev, hder, hfin, by simpa using hvd, hck⟩
 
+/-- **the expectation is never consumed and `peer_certificate` always honours it**: for a client given the
+expected fingerprint `f`, after *any* history — any number of Certificate messages, in any order, with any bodies,
+repeated at consecutive message_seq or not — the expectation is still `f`, and whatever certificate is currently
+stored as the peer's (the one a later ServerKeyExchange signature is verified under) hashes to `f` and has a usable
+key.  A Certificate message can overwrite `peer_certificate` only with another certificate of the same digest.
+(`client_auth` adds that the signature that was checked, was checked under such a leaf.) -/
+theorem peer_certificate_always_matches (C : Crypto) (L : Loc) (f : Bytes) (ops : List Op) :
+    (after C L true (some f) ops).ctx.expectedFp = some f ∧
+    ∀ leaf, (after C L true (some f) ops).ctx.peerCert = some leaf → C.digest leaf = f ∧ C.pkOk leaf = true := by
+  have hcl := (start_client C L f).steps (runOps_vstep C L ops (start L true (some f)).1)
+  refine ⟨hcl.fp, ?_⟩
+  intro leaf h
+  exact hcl.certs leaf (hcl.peerCert leaf h)
+
 /-- The certificate the checks are about is the *first* one of the Certificate message (the leaf):
 `handle_certificate` records a checked certificate only for the head of the decoded list, and it is
 that same `leaf` whose key `client_auth` says verified the ServerKeyExchange signature.  (A message
